@@ -9,6 +9,8 @@
      Q <id> lprt + SLP block               -> A <id> <wf_lpb 0|1> <OK|ERR|FLT|FUEL> <equiv_by_name P (read_lp (write_lp P))>
      Q <id> mpswrite + MLP block           -> A <id> <enc line>*       (IO/MpsWrite.write_mps)
      Q <id> lpread <0|1> <enc text> + (NONE | SLP block of the library's result) -> A <id> <OK|ERR|FLT|FUEL> <agree> <ncols> <nrows>
+     Q <id> mpsread <0|1> <enc text> + (NONE | SLP block of the library's result) -> A <id> <OK|ERR:<reason>|FLT|FUEL> <agree> <ncols> <nrows>   (IO/MpsRead.read_mps_res)
+     Q <id> mpsrt + MLP block              -> A <id> <wf_mpsb 0|1> <outcome of read_mps_res (write_mps P)> <equiv_by_name P P'>
 *)
 open Model
 open Glue
@@ -127,6 +129,18 @@ let show_bstmt b = match b with
   | BFix v -> "FIX " ^ show_q v | BFreeS -> "FREE" | BLo v -> "LO " ^ show_q v
   | BUp v -> "UP " ^ show_q v | BLoUp (l, u) -> "LOUP " ^ show_q l ^ " " ^ show_q u
 
+let reason_name e = match e with
+  | EBadKey -> "BadKey" | ETwoSections -> "TwoSections" | ESectionOrder -> "SectionOrder" | EMissingObjLine -> "MissingObjLine"
+  | EBadObjRecord -> "BadObjRecord" | EBadObjsense -> "BadObjsense" | EBadRefrow -> "BadRefrow" | ENoSection -> "NoSection"
+  | ERowSense -> "RowSense" | ERowRepeated -> "RowRepeated" | ERowMissingName -> "RowMissingName" | EMarkerBad -> "MarkerBad"
+  | EMarkerMissing -> "MarkerMissing" | EMarkerField -> "MarkerField" | ESosOther -> "SosOther" | EColMissingFields -> "ColMissingFields"
+  | EColNotRow -> "ColNotRow" | EColBadCoef -> "ColBadCoef" | ERhsMissingRow -> "RhsMissingRow" | ERhsNotRow -> "RhsNotRow"
+  | ERhsBadCoef -> "RhsBadCoef" | ERhsTwice -> "RhsTwice" | ERngMissingRow -> "RngMissingRow" | ERngNotRow -> "RngNotRow"
+  | ERngBadCoef -> "RngBadCoef" | EBndType -> "BndType" | EBndNoIdent -> "BndNoIdent" | EBndMissingCol -> "BndMissingCol"
+  | EBndNotCol -> "BndNotCol" | EBndBadValue -> "BndBadValue" | EObjNameUnknown -> "ObjNameUnknown" | ENoNRow -> "NoNRow"
+  | ERefrowUnknown -> "RefrowUnknown" | ENoCols -> "NoCols" | ESosInt -> "SosInt" | ESosWeight -> "SosWeight"
+  | EBoundsCross -> "BoundsCross" | ENoUsedCols -> "NoUsedCols" | ENoRows -> "NoRows" | ERangeOnN -> "RangeOnN"
+
 let () =
   let ic = stdin in
   let rec loop () =
@@ -221,6 +235,22 @@ let () =
                (equiv_by_name a b && equiv_by_name b a && List.length p.l_cols = List.length l.l_cols && List.length p.l_rows = List.length l.l_rows,
                 List.length p.l_cols, List.length p.l_rows)
              | PrOk p, None -> (false, List.length p.l_cols, List.length p.l_rows)
+             | _, None -> (true, 0, 0)
+             | _, Some _ -> (false, 0, 0)) in
+           Printf.printf "A %s %s %s %d %d\n" id tag (string_of_bool agree) nc nr
+         | "mpsread", [ v; t ] ->
+           let r = read_mps_res (v = "1") !sentinel (split_lines (chars_of_string (dec t))) in
+           let lib = (match next_tokens ic with
+             | Some [ "NONE" ] -> None
+             | Some h -> Some (read_slp_hdr ic h)
+             | None -> failwith "NONE or SLP expected") in
+           let tag = (match r with MOk _ -> "OK" | MErr e -> "ERR:" ^ reason_name e | MFlt -> "FLT" | MFuel -> "FUEL") in
+           let agree, nc, nr = (match r, lib with
+             | MOk p, Some l ->
+               let a = mlp_to_nlp p and b = to_nlp l in
+               (equiv_by_name a b && equiv_by_name b a && List.length p.m_cols = List.length l.l_cols && List.length p.m_rows = List.length l.l_rows,
+                List.length p.m_cols, List.length p.m_rows)
+             | MOk p, None -> (false, List.length p.m_cols, List.length p.m_rows)
              | _, None -> (true, 0, 0)
              | _, Some _ -> (false, 0, 0)) in
            Printf.printf "A %s %s %s %d %d\n" id tag (string_of_bool agree) nc nr
